@@ -189,6 +189,10 @@ class Row(Vector):
 
 class Table(Vector):
 	""" Multiple columns of the same length """
+	# The column fingerprints are combined with a base of their own. With the base used inside the
+	# columns, every cell on an anti-diagonal would carry the same weight: exchanging such cells, or
+	# transposing a square table, would leave the table fingerprint unchanged.
+	_FP_B = 2654435761
 	_length = None
 	_repr_rows = None  # Optional table-specific repr row count override
 	
